@@ -63,7 +63,7 @@ def canon(v):
     """canonicalise an implementation result into decoded tokens"""
     import numpy as np
     if isinstance(v, (bool, np.bool_)):
-        return ["1" if v else "0"]
+        return ["T" if v else "F"]
     if isinstance(v, (int, np.integer)):
         return [float(v)]
     if isinstance(v, (float, np.floating)):
@@ -72,5 +72,5 @@ def canon(v):
         return [v]
     a = np.asarray(v)
     if a.dtype == bool:
-        return ["1" if t else "0" for t in a.ravel()]
+        return ["T" if t else "F" for t in a.ravel()]
     return [float(t) for t in a.ravel()]
